@@ -76,6 +76,7 @@ package client
 //@   requires t != nil
 //@   blocking
 //@   ensures res == (t.resultCh != nil)
+//@   ensures forall ch :: closed(ch) == old(closed(ch))
 //@   assigns channels
 
 //@ func (*Transaction).WaitForResult
@@ -141,6 +142,7 @@ package client
 
 //@ func (*TCPAllocation).HandleConnectionAttempt
 //@   requires a != nil && a.log != nil
+//@   ensures forall ch :: closed(ch) == old(closed(ch))
 //@   assigns channels
 
 //@      // the retransmission schedule as a lemma over the per-firing clause [C12:doubles-capped]: starting from an RTO in
